@@ -23,6 +23,7 @@ import (
 	"time"
 
 	res "github.com/jirenius/go-res"
+	"github.com/jirenius/go-res/logger"
 
 	"verif/internal/core"
 	"verif/internal/rconn"
@@ -113,6 +114,12 @@ func execute(sc Scenario, rng *rand.Rand) (rec, error) {
 	rn.rname = nv.name
 	s := res.NewService("test")
 	s.SetLogger(nil)
+	stepPad = ""
+	if (sc.Name+len(sc.Script))%4 == 3 {
+		// one of the bundled loggers with everything switched on, and payloads of a few kilobytes
+		s.SetLogger(logger.NewMemLogger().SetTrace(true))
+		stepPad = strings.Repeat("0123456789abcdef", 130)
+	}
 	s.SetWorkerCount(1)
 	var opts []res.Option
 	switch sc.Rt {
@@ -233,6 +240,17 @@ func execute(sc Scenario, rng *rand.Rand) (rec, error) {
 	}
 	var submux *res.Mux
 	var lateReg func() // the last registration of all, made on the mounted mux after a lookup through the service
+	viaHandler := 0    // listeners registered through Handler.Listeners
+	listener := func(jj int) func(ev *res.Event) {
+		return func(ev *res.Event) {
+			rn.mu.Lock()
+			rn.log = append(rn.log, []interface{}{"listen", ev.Name, rn.step, jj})
+			rn.mu.Unlock()
+			if jj == sc.Lpanic {
+				panic("listener panic")
+			}
+		}
+	}
 	if nv.submux {
 		submux = res.NewMux("")
 		if pv := core.Catch(func() {
@@ -266,7 +284,15 @@ func execute(sc Scenario, rng *rand.Rand) (rec, error) {
 				s.GetHandler(nv.name)
 				s.Resource(nv.name)
 				s.With(nv.name, func(res.Resource) {})
-				submux.Handle(nv.pattern, opts...)
+				lopts := opts
+				if sc.Nl >= 1 {
+					// the first listener is declared by the handler itself (Handler.Listeners)
+					viaHandler = 1
+					lopts = append(append([]res.Option{}, opts...), res.OptionFunc(func(hs *res.Handler) {
+						hs.Listeners = map[string]func(*res.Event){nv.pattern: listener(1)}
+					}))
+				}
+				submux.Handle(nv.pattern, lopts...)
 			}
 		}); pv != nil {
 			return nil, fmt.Errorf("registration panicked: %v", pv)
@@ -316,16 +342,8 @@ func execute(sc Scenario, rng *rand.Rand) (rec, error) {
 		s.Resource(nv.name)
 		addListener = submux.AddListener
 	}
-	for j := 1; j <= sc.Nl; j++ {
-		jj := j
-		addListener(nv.pattern, func(ev *res.Event) {
-			rn.mu.Lock()
-			rn.log = append(rn.log, []interface{}{"listen", ev.Name, rn.step, jj})
-			rn.mu.Unlock()
-			if jj == sc.Lpanic {
-				panic("listener panic")
-			}
-		})
+	for j := 1 + viaHandler; j <= sc.Nl; j++ {
+		addListener(nv.pattern, listener(j))
 	}
 	conn := rconn.New(nil)
 	if sc.PubFail {
@@ -679,6 +697,10 @@ func abstract(m rconn.Msg, inbox, rname, cid string) (rec, string) {
 	default:
 		bad = append(bad, "message on undocumented subject "+m.Subject)
 	}
+	if stepPad != "" && len(m.Data) > 1024 && !strings.Contains(string(m.Data), stepPad) {
+		// the long value the handler supplied is part of the payload, byte for byte
+		bad = append(bad, fmt.Sprintf("payload of %d bytes does not contain the value the handler supplied: ...%s...", len(m.Data), m.Data[1000:1060]))
+	}
 	return msg, strings.Join(bad, "; ")
 }
 
@@ -699,6 +721,9 @@ type panicMarshal struct{ p *int }
 func (v panicMarshal) MarshalJSON() ([]byte, error) { return []byte(fmt.Sprint(*v.p)), nil }
 
 // doStep performs one script step on the request.
+// stepPad, when set, is added to the values the handler steps send (payloads far above a kilobyte)
+var stepPad string
+
 func doStep(r *res.Request, st string) {
 	if strings.HasPrefix(st, "try-") {
 		// the handler recovers whatever the step panics with and keeps using the request
@@ -710,7 +735,7 @@ func doStep(r *res.Request, st string) {
 	}
 	switch st {
 	case "ok":
-		r.OK(map[string]interface{}{"a": 1, "s": `q"uo<te`})
+		r.OK(map[string]interface{}{"a": 1, "s": `q"uo<te` + stepPad})
 	case "ok-nil":
 		r.OK(nil)
 	case "ok-bad":
@@ -766,11 +791,11 @@ func doStep(r *res.Request, st string) {
 	case "accessgranted":
 		r.AccessGranted()
 	case "model":
-		r.Model(map[string]interface{}{"a": 1, "ref": res.Ref("test.x"), "d": res.DataValue[[]int]{Data: []int{1}}})
+		r.Model(map[string]interface{}{"a": 1, "ref": res.Ref("test.x"), "d": res.DataValue[[]int]{Data: []int{1}}, "pad": stepPad})
 	case "querymodel":
 		r.QueryModel(map[string]int{"a": 1}, "q=1")
 	case "collection":
-		r.Collection([]interface{}{1, "two", nil})
+		r.Collection([]interface{}{1, "two" + stepPad, nil})
 	case "model-bad":
 		r.Model(make(chan int))
 	case "new":
@@ -806,7 +831,7 @@ func doStep(r *res.Request, st string) {
 	case "tokenevent":
 		r.TokenEvent(map[string]string{"user": "x"})
 	case "ev-custom":
-		r.Event("custom", map[string]string{"k": `v"<`})
+		r.Event("custom", map[string]string{"k": `v"<` + stepPad})
 	case "ev-dollar":
 		r.Event("$foo", map[string]int{"a": 1})
 	case "ev-punct":
